@@ -683,6 +683,39 @@ fn check_renew(r: &mut Report, d: &mut Driver, p: &Project, krate: &Option<Strin
     r.corr("corr.cmd.renew", &format!("ok {}", imp.text()), if model_sorted.is_empty() { &ans } else { &model_sorted }, case);
 }
 
+/// C04 ("a violation entry, own or imported"): a violation recorded with `record-violation` must
+/// reach a project that imports this project's audits file.
+fn c04_violation_exported(r: &mut Report, p: &Project, w: &CmdWorld, pkg: &str, req: &str, after: &[String], case: &str) {
+    let Some(a) = load(after) else { return };
+    let url = "https://selfpeer.example/audits.toml".to_owned();
+    let mut remote = cmd::Remote::default();
+    remote.registry = w.remote.registry.clone();
+    remote.peers.insert(url.clone(), a.audits.clone());
+    remote.install();
+    let mut config = ConfigFile { cargo_vet: Default::default(), default_criteria: get_default_criteria(), imports: SortedMap::new(), policy: Default::default(), exemptions: SortedMap::new() };
+    // the importer maps every criterion of the exporting project to itself
+    let mut cmap = CriteriaMap::new();
+    for c in a.audits.criteria.keys() {
+        cmap.insert(gen::sp(c.clone()), vec![gen::sp(c.clone())]);
+    }
+    config.imports.insert("selfpeer".into(), RemoteImport { url: vec![url], exclude: vec![], criteria_map: cmap });
+    let local = AuditsFile { criteria: a.audits.criteria.clone(), wildcard_audits: SortedMap::new(), audits: SortedMap::new(), trusted: SortedMap::new() };
+    let store = Store::mock(config, local, ImportsFile { unpublished: SortedMap::new(), publisher: SortedMap::new(), audits: [("selfpeer".to_owned(), AuditsFile::default())].into_iter().collect() });
+    let root = std::env::var("VERIF_WORK").map(PathBuf::from).unwrap_or_else(|_| std::env::temp_dir());
+    let Ok(dir) = tempfile::Builder::new().prefix("vetimporter").tempdir_in(root) else { return };
+    let p2 = Project { dir, md: p.md.clone() };
+    p2.write(&store.mock_commit());
+    let got = p2.acquire(false).map(|s| s.clone_for_suggest(false));
+    w.remote.install();
+    let Ok(live) = got else { return };
+    r.oracle_checked += 1;
+    let Ok(want) = VersionReq::parse(req) else { return };
+    let seen = live.imported_audits().get("selfpeer").and_then(|f| f.audits.get(pkg)).map(|l| l.iter().any(|x| matches!(&x.kind, AuditKind::Violation { violation } if *violation == want))).unwrap_or(false);
+    if !seen {
+        r.fail("oracle", "C04/ucmd/recorded-violation-not-exported", format!("the violation `{pkg} {req}` written by record-violation does not reach a project importing this audits file"), case);
+    }
+}
+
 /// C12 after a clean-up that prunes the exemptions of `names`: on the store as the next unlocked
 /// run sees it, every remaining exemption criterion of those crates is needed.
 fn c12_kept(r: &mut Report, md: &Metadata, live: &Store, names: &[String], lab: &str, case: &str) {
@@ -916,6 +949,22 @@ pub fn exec_user_history(r: &mut Report, d: &mut Driver, rng: &mut Rng, idx: u64
                 c11_user(r, &uc, &before, &after, live_after.as_ref(), &case);
                 if let Some(live) = &live_after {
                     c11_no_wider(r, &p, &uc, &before, live, &case);
+                }
+            }
+            "C04" => {
+                if let UCmd::RecordViolation { pkg, req, .. } = &uc {
+                    c04_violation_exported(r, &p, &w, pkg, req, &after, &case);
+                }
+                // and no command drops a violation
+                if let (Some(b), Some(a)) = (load(&before), load(&after)) {
+                    r.oracle_checked += 1;
+                    for (n, l) in &b.audits.audits {
+                        for o in l.iter().filter(|o| matches!(o.kind, AuditKind::Violation { .. })) {
+                            if !a.audits.audits.get(n).map(|l2| l2.contains(o)).unwrap_or(false) {
+                                r.fail("oracle", "C04/ucmd/violation-dropped", format!("`{lab}`: the violation entry {n} {:?} (importable = {}) disappeared", o.kind, o.importable), &case);
+                            }
+                        }
+                    }
                 }
             }
             // C05: a record counts for its criteria "and for no other criterion" also through the
